@@ -5,6 +5,33 @@ import json, subprocess
 HOOK_COMMITS = ["9b212f4"]
 
 CLAIMED = {
+ "C05": dict(level="exploration", technique="universal runtime monitors on every call (recover(), error-taxonomy assertions, deep before/after comparison of inputs, finiteness and sub-value membership of results) over an exhaustive operand-kind matrix and random workloads; crash-isolated workers with journal",
+   text="Every binary/unary operator, predicate and method is applied to every pair of a value-kind corpus (incl. out-of-range json.Numbers and each datetime type) through all five entry points, lax/strict, silent/verbose, with/without WithTZ, plus the random workload and deep/long documents; on each call the monitors assert no panic, the error taxonomy, ErrInvalid never returned, inputs unmodified, results finite and made of sub-values.",
+   note="Sub-value membership by canonical value. A fatal runtime error (stack overflow) kills the worker and is attributed through the journal."),
+ "C07": dict(level="exploration", technique="reference-model monitor on an exhaustively enumerated small scope (all accessor/filter chains x all small documents) + direct 'lax never fails' assertion",
+   text="All chains of <=3 steps over 16 accessor/filter forms x all documents of <=5 nodes, lax and strict, are executed and compared with the structural rules (offending element at every position); plus random larger accessor paths.",
+   note="Strict array accessors on non-arrays below .** are not pinned by the statement and skipped."),
+ "C12": dict(level="exploration", technique="leaf reference model (exact rational / byte / boolean comparison) + order-axiom monitors on observed outcomes over an exhaustively enumerated value corpus; Go regexp as oracle for like_regex",
+   text="All ordered pairs of a ~90-value corpus (three numeric representations) x 6 operators x 2 modes are executed as predicate checks; outcomes are compared with the by-value model and, independently, trichotomy/duality/unions/transitivity are checked on the observed outcomes; sequence (existential/strict) rule, starts with and like_regex (flags translated by the harness) likewise.",
+   note="By-value verdicts only for numbers unambiguous in their representation."),
+ "C13": dict(level="exploration", technique="leaf reference model (math/big exact arithmetic, correctly rounded IEEE results with accept-sets) over an exhaustive boundary grid x 9 representation pairings; algebraic identities as relations between executions",
+   text="A ~60x60 boundary grid x 5 operators x 9 representation pairings is executed and each result compared with the set of acceptable results (exact integer, truncated or exact quotient, IEEE double either rounding order, error on overflow / zero divisor); unary +/- on values and sequences, singleton rule, commutativity and double negation on real executions.",
+   note="Integer operand = integer representation as the README documents."),
+ "C14": dict(level="exploration", technique="leaf reference model (slice arithmetic) over an exhaustively enumerated small scope",
+   text="All arrays of length <=3 over a 7-element alphabet (and length 4 over 3) x all single/range/pair subscripts over 16 bounds x lax/strict x silent/verbose are executed and compared with ~30 lines of slice arithmetic; bad subscripts, nested subscripts, random larger cases.",
+   note="trunc toward zero, inclusive ranges, last = n-1."),
+ "C15": dict(level="exploration", technique="leaf reference model (explicit depth-counting tree walk, all member orders) over all JSON trees up to a node bound",
+   text="All JSON trees of <=6 nodes x 38 level-bound forms of .** (bare and followed by .a/.*/[*] in strict mode) x .* and [*] are executed and compared with an explicit tree walk in which the members of one object may appear in any order; .** vs .**{0 to last} and k-fold equivalences on real executions.",
+   note="Objects of the enumerated trees have <=2 members, so all orders are enumerated."),
+ "C16": dict(level="exploration", technique="leaf reference models per method (math/big) over a boundary grid in float64/json.Number/string form; round-trip relations; keyvalue id partition monitor on slab-allocated documents with GC churn",
+   text="12 methods x input kinds x a numeric boundary grid x representations are executed and compared with per-method big-number oracles (ties either way, .decimal within 4 ulp and |result| < 10^(p-s)); .string() round trips; keyvalue ids grouped by owning object (unique marker members) must be equal within, distinct across, and stable over repeated executions.",
+   note="Non-canonical numeric strings and numbers outside int64/float64 are totality-only."),
+ "C17": dict(level="exploration", technique="reference model built on Go time arithmetic over a component-built datetime grid + metamorphic relation (compare vs compare-after-cast, antisymmetry, transitivity) between executions",
+   text="A grid of datetime strings x 6 methods x precisions x WithTZ x 9 context zones is executed and compared with casts computed by time.Date/In/Round; all pairs of a sub-grid x 6 operators x zones: direct comparison vs model, vs comparison after explicit casts (two real executions), antisymmetry, transitivity.",
+   note="time->time_tz only with fixed-offset zones (the library uses today's date for named zones)."),
+ "C19": dict(level="exploration", technique="Go race detector on a concurrent public-API workload over fresh never-executed *Path values released from a barrier + porcupine history check against the isolated baseline + AST fingerprints + sequential order-independence",
+   text="N goroutines x M calls (Query/First/Exists/Match/ExistsOrMatch/String, concurrent Parse) over a pool covering every node kind, shared documents and variables, several GOMAXPROCS settings and injected yields run under -race; every recorded operation must equal the isolated baseline (porcupine), the AST must be unchanged, and every path must return the baseline after arbitrary preceding calls.",
+   note="Only schedules the Go scheduler produced; the race detector sees conflicting accesses that actually executed."),
  "C01": dict(level="exploration", technique="online reference-model monitor: every real Query outcome is compared with an independent evaluator of the documented rules (set of outcomes over all object-member orders); disagreements attributed by named deviation switches",
    text="Random (path, document, decoding, options) triples over every node kind are executed by the real Query and by an independently written stream evaluator of the documented lax/strict rules; the observed items and error class must be one of the outcomes the rules allow (member orders enumerated). Outcomes the documentation does not pin are skipped and counted. Exploration of generated cases, not a proof.",
    note="Trusted base: the reference evaluator in /verif/internal/model (shares no code with path/exec). Numbers compared by exact value; integer quotient may be truncated or exact."),
